@@ -8,7 +8,10 @@ CHECK = {
  'title': 'Stopping regulation hands the fan back or leaves it at full speed',
  'level': 'fault_enumeration',
  'technique': 'choice-tape DFS with deviation bound over the real controller Run (and daemon) in virtual time: stop event before every file operation / idle instant x write faults',
- 'rule': 'layer 1: real DefaultFanController.Run(ctx) in a testing/synctest bubble with real bbolt persistence; per configuration (fan kind, pwm_enable present, original mode 0/1/2/3, '
+ 'rule': 'layer 2: real RunDaemon() (YAML -> loader -> validator -> InitializeObjects -> actor group incl. the signal actor), one OS process per execution, in a virtual-time bubble with the vsignal stand-in: '
+         'up to 2 (quick) / 3 (thorough) extra SIGTERM/SIGINT deliveries before any file operation after regulation began (single-fan jobs) or at idle instants (all jobs), then a final SIGTERM; oracle on the mirrored '
+         'device files after the process is gone + no panic + exit 0. '
+         'layer 1: real DefaultFanController.Run(ctx) in a testing/synctest bubble with real bbolt persistence; per configuration (fan kind, pwm_enable present, original mode 0/1/2/3, '
          'original PWM 0/100/255, stored data / configured map / full initialisation, stop by cancellation or by stalled-at-max error, timer tie order) every execution with at most '
          '2 (quick) / 3 (thorough) deviations, a deviation being: cancellation before a given file operation or at an idle instant, or a refused / silently ignored write after the stop event. '
          'Oracle when Run has returned: (pwm_enable == original and original != 1) or pwm == 255; executions in which the final full-speed write itself was refused/ignored are excluded. '
@@ -17,5 +20,6 @@ CHECK = {
                                    'vsync.Mutex (Cond-based) replaces sync.Mutex in the controller package so that lock waits are durable blocks for the virtual clock'],
  'level_text': 'all signal-arrival points x write-fault combinations up to a deviation bound, each execution run to completion on the real code; final device state checked',
  'level_note': 'bounded by deviation count (reported) and the listed configurations; the long initialisation sequence is cancelled at every 97th operation in quick, at every operation in thorough',
- 'runs': [{'pkg': 'internal/controller', 'test': 'TestVX_C03run', 'shards_quick': 16, 'shards_thorough': 16}],
+ 'runs': [{'pkg': 'internal/controller', 'test': 'TestVX_C03run', 'shards_quick': 16, 'shards_thorough': 16},
+          {'pkg': 'internal', 'test': 'TestVX_C03daemon', 'shards_quick': 5, 'shards_thorough': 5, 'gomaxprocs': '4'}],
 }
